@@ -58,6 +58,14 @@ def e2e_module(lo, hi, ext):
         parts.append('vv Tt ::= %d' % lit)
         parts.append('Dd ::= SEQUENCE { d INTEGER %s DEFAULT %d }' % (c, lit))
         parts.append('ww INTEGER %s ::= %d' % (c, lit))
+        parts.append('Ch ::= CHOICE { alt SEQUENCE { d INTEGER %s DEFAULT %d }, other NULL }' % (c, lit))
+    if lo is not None and hi is not None and lo <= hi:
+        # the upper bound given by a value reference; a DEFAULT and a value through a reference to that type
+        parts.append('bnd INTEGER ::= %d' % hi)
+        parts.append('Rv ::= INTEGER (%d..bnd%s)' % (lo, ', ...' if ext else ''))
+        parts.append('Dr ::= SEQUENCE { d Rv DEFAULT %d }' % lo)      # sorts before Rv: linked after it
+        parts.append('Zr ::= SEQUENCE { d Rv DEFAULT %d }' % lo)      # sorts after Rv: linked before it
+        parts.append('vr Rv ::= %d' % lo)
     return 'M DEFINITIONS AUTOMATIC TAGS ::= BEGIN\n' + '\n'.join(parts) + '\nEND\n'
 
 
@@ -121,6 +129,43 @@ def observations(res, lo, hi, ext):
             obs.append((1, d['fields'][0]['ty'], lits))
         else:
             obs.append(('missing', 'Dd', []))
+        ca = find(items, 'struct', 'ChAlt')
+        if ca:
+            f = find(items, 'fn', 'ch_alt_d_default')
+            if f is None:
+                obs.append(('missing', 'ch_alt_d_default', []))
+            else:
+                body = ' '.join(f['body'])
+                if f['ret'] != ca['fields'][0]['ty']:
+                    obs.append(('mismatch', 'default fn type %s vs field %s (CHOICE alternative)' % (f['ret'], ca['fields'][0]['ty']), []))
+                if ('Integer::from' in body.replace(' ', '')) != (f['ret'] == 'Integer'):
+                    obs.append(('mismatch', 'literal of a DEFAULT in a CHOICE alternative is not written for its type %s: %s' % (f['ret'], body[:80]), []))
+                obs.append((1, ca['fields'][0]['ty'], int_literals(body)))
+        else:
+            obs.append(('missing', 'ChAlt', []))
+        if d:
+            f = find(items, 'fn', 'dd_d_default')
+            if f is not None:
+                body = ' '.join(f['body'])
+                if ('Integer::from' in body.replace(' ', '')) != (f['ret'] == 'Integer'):
+                    obs.append(('mismatch', 'literal of a DEFAULT is not written for its type %s: %s' % (f['ret'], body[:80]), []))
+        rv = find(items, 'struct', 'Rv')
+        if lo is not None and hi is not None and lo <= hi:
+            if rv is None:
+                obs.append(('missing', 'Rv', []))
+            else:
+                rty = rv['fields'][0]['ty']
+                obs.append((0, rty, []))
+                f = find(items, 'fn', 'dr_d_default')
+                fz = find(items, 'fn', 'zr_d_default')
+                v2 = find(items, 'const', 'VR') or find(items, 'static', 'VR')
+                for what, expr in (('DEFAULT', ' '.join(f['body']) if f else None), ('DEFAULT in a type linked before the referenced one', ' '.join(fz['body']) if fz else None),
+                                   ('value', v2['expr'] if v2 else None)):
+                    if expr is None:
+                        obs.append(('missing', 'Rv ' + what, []))
+                    elif ('Integer::from' in expr.replace(' ', '')) != (rty == 'Integer'):
+                        obs.append(('known-ref-bound', '%s through a reference to a type whose bound is a value reference: the type holds %s, '
+                                    'the literal is written %s' % (what, rty, expr[:60]), []))
         w = find(items, 'const', 'WW') or find(items, 'static', 'WW')
         if w:
             ty = w['ty']
@@ -174,6 +219,12 @@ def judge(ck, cases, results):
                 ck.violation('impl-violation', c['sources'][0], impl=r, why='generated code does not parse')
                 continue
             for pos, tok, lits in observations(r, lo, hi, ext):
+                if pos == 'known-ref-bound':
+                    if ck.is_known(KNOWN_REF_BOUND):
+                        ck.known_hit(KNOWN_REF_BOUND, {'asn1': [l for l in c['sources'][0].split('\n') if l.startswith(('bnd', 'Rv', 'Dr', 'vr'))], 'what': tok})
+                    else:
+                        ck.violation('impl-violation', c['sources'][0], why=tok, warnings=r.get('warnings'))
+                    continue
                 if pos in ('missing', 'mismatch'):
                     ck.violation('impl-violation', c['sources'][0], why='%s %s' % (pos, tok), warnings=r.get('warnings'))
                     continue
@@ -310,6 +361,10 @@ def judge_setop(ck, cases, results):
                           'detail': 'model and implementation disagree at %s on %s (%s)' % (pos, cases[i]['sources'][0], corr_terms[j])})
 
 
+KNOWN_DEFAULT_SETOP = 'C06-default-fn-under-set-operation'
+KNOWN_REF_BOUND = 'C06-literal-through-reference-with-value-bound'
+
+
 def serial_cases(ck, n):
     """serially applied value constraints, each within the one before: (lo..hi), (lo..hi, ...), ((lo..hi), ...), (v), (v, ...)"""
     rng = ck.rng
@@ -323,7 +378,15 @@ def serial_cases(ck, n):
                 a, b = sorted([rng.randint(lo, hi), rng.randint(lo, hi)]) if hi - lo < 2 ** 62 else sorted(rng.sample([lo, hi, lo + 1, hi - 1, (lo + hi) // 2], 2))
                 lo, hi = a, b
             form = rng.choice(['r', 'r', 're', 'rs', 'v', 've'] if lo == hi else ['r', 'r', 'r', 're', 'rs'])
-            if form == 'r':
+            if j > 0 and hi - lo >= 2 and rng.random() < 0.3:
+                form = rng.choice(['u', 'ue'])
+            if form in ('u', 'ue'):
+                # a union of two adjacent pieces of lo..hi (same effective range), with or without a marker behind the last operand
+                mid = rng.randint(lo, hi - 1)
+                e = form == 'ue'
+                cons.append('(%d..%d | %d..%d%s)' % (lo, mid, mid + 1, hi, ', ...' if e else ''))
+                terms.append('(COther %s)' % cbool(e))
+            elif form == 'r':
                 cons.append('(%d..%d)' % (lo, hi)); terms.append('(CRange (Some %s) (Some %s) false false)' % (cz(lo), cz(hi))); e = False
             elif form == 're':
                 cons.append('(%d..%d, ...)' % (lo, hi)); terms.append('(CRange (Some %s) (Some %s) true false)' % (cz(lo), cz(hi))); e = True
@@ -336,7 +399,8 @@ def serial_cases(ck, n):
         c = ''.join(cons)
         src = ('Ms%d DEFINITIONS AUTOMATIC TAGS ::= BEGIN\nTt ::= INTEGER %s\nSs ::= SEQUENCE { a INTEGER %s }\nLl ::= SEQUENCE OF INTEGER %s\n'
                'vv Tt ::= %d\nDd ::= SEQUENCE { d INTEGER %s DEFAULT %d }\nEND\n' % (k, c, c, c, lo, c, lo))
-        out.append({'op': 'compile', 'sources': [src], '_lo': lo, '_hi': hi, '_ext': e, '_terms': terms, '_c': c})
+        out.append({'op': 'compile', 'sources': [src], '_lo': lo, '_hi': hi, '_ext': e, '_terms': terms, '_c': c,
+                    '_setop': any(t.startswith('(COther') for t in terms)})
     return out
 
 
@@ -371,7 +435,11 @@ def judge_serial(ck, cases, results):
         if d and f:
             seen.append(('default', d['fields'][0]['ty'], int_literals(' '.join(f['body'])), False))
             if f['ret'] != d['fields'][0]['ty']:
-                ck.violation('impl-violation', c['sources'][0], why='default fn type %s vs field %s' % (f['ret'], d['fields'][0]['ty']))
+                if c['_setop'] and ck.is_known(KNOWN_DEFAULT_SETOP):
+                    # the field takes the width of the folded range, the default function that of the constraints integer_type_of can read
+                    ck.known_hit(KNOWN_DEFAULT_SETOP, {'constraint': c['_c'], 'field': d['fields'][0]['ty'], 'default_fn': f['ret']})
+                else:
+                    ck.violation('impl-violation', c['sources'][0], why='default fn type %s vs field %s' % (f['ret'], d['fields'][0]['ty']))
         if len(seen) < 4:
             ck.violation('impl-violation', c['sources'][0], why='a position is missing from the bindings', seen=[x[0] for x in seen])
         for pos, tok, lits, assign_path in seen:
